@@ -99,22 +99,23 @@ Proof. exact first_idx_spec. Qed.
 Theorem C19_summary_lookup_never_fails : forall x ym, summary_key_error code_flags x ym = false.
 Proof. intros x ym. exact (summary_no_key_error code_flags x ym eq_refl). Qed.
 
-(** the generator as published (dictionary never emptied): F3 -- the hidden 2020 lot of asset BBB (input row 4) links
-    to row 4 of "BBB In-Out", which shows BBB's lot of 2021-02-01; F2 -- KeyError instead of an unlinked Summary line *)
-Theorem C19_link_target_refuted_stale_entry :
-  cell_at (sheet_named n_BBB_tax (full_report only_clear_missing wenv w_f3)) 22 12 = PLink n_BBB_inout 4 (PTs (ts_of_day D2020_01_01)) /\
-  cell_at (sheet_named n_BBB_inout (full_report only_clear_missing wenv w_f3)) 3 1 = PTs (ts_of_day D2021_02_01).
+(** the generator as published (dictionary never emptied): F3 -- in the two-asset input [w_f3] (assets AAA, BBB sharing
+    row numbers 3, 4, 9; from-date 2021-01-01) a linked timestamp cell of "BBB Tax" leads to a row of "BBB In-Out" that
+    shows another timestamp: the hidden 2020 lot of BBB (input row 4) inherits the row of AAA's visible lot with the same
+    row number.  Repaired: no such cell, the event cells stay linked, the hidden lot's cells are plain.
+    F2 -- [w_f2] (sale in March 2021, from-date 2021-06-01): KeyError instead of an unlinked Summary line *)
+Theorem C19_link_target_refuted_stale_entry : has_stale_link (full_report only_clear_missing wenv w_f3) n_BBB_tax n_BBB_inout = true.
 Proof. exact f3_stale_link. Qed.
 Theorem C19_same_input_repaired :
-  cell_at (sheet_named n_BBB_tax (full_report fixed_flags wenv w_f3)) 22 12 = PTs (ts_of_day D2020_01_01) /\
-  cell_at (sheet_named n_BBB_tax (full_report fixed_flags wenv w_f3)) 22 5 = PLink n_BBB_inout 10 (PTs (ts_of_day D2021_03_01)) /\
-  cell_at (sheet_named n_BBB_inout (full_report fixed_flags wenv w_f3)) 9 1 = PTs (ts_of_day D2021_03_01).
+  has_stale_link (full_report fixed_flags wenv w_f3) n_BBB_tax n_BBB_inout = false /\
+  (0 < n_links (full_report fixed_flags wenv w_f3) n_BBB_tax < n_links (full_report only_clear_missing wenv w_f3) n_BBB_tax)%nat.
 Proof. exact f3_repaired. Qed.
 Theorem C19_summary_link_refuted_unguarded :
   full_report {| ff_clears := true; ff_guarded := false; ff_single_by_value := true |} wenv w_f2 = RKeyError.
 Proof. exact f2_key_error. Qed.
 Theorem C19_summary_same_input_repaired :
-  cell_at (sheet_named gen_full_msg_summary (full_report fixed_flags wenv w_f2)) 3 0 = PInt 2021.
+  existsb (shows_int 2021) (sheet_named gen_full_msg_summary (full_report fixed_flags wenv w_f2)) = true /\
+  n_links (full_report fixed_flags wenv w_f2) gen_full_msg_summary = 0%nat.
 Proof. exact f2_repaired. Qed.
 
 Print Assumptions C19_link_columns.
